@@ -66,7 +66,7 @@ SERVER_TRUSTED = ['lib/server/{run,netio,utils}.go and lib/server/replies are mo
 _SRV_DEBUG = dict(tests=['TestServerHistories'], monitor_tags=set(), panic_is_violation=set(), rule=SERVER_RULE, trusted=SERVER_TRUSTED, timeout={'quick': 900, 'thorough': 14000})
 
 def _srv(mon, extra_tests=(), **kw):
-    d = dict(tests=['TestServerHistories'] + list(extra_tests), monitor_tags={mon}, panic_is_violation=set(), rule=SERVER_RULE,
+    d = dict(tests=['TestServerHistories', 'TestServerStories'] + list(extra_tests), monitor_tags={mon}, panic_is_violation=set(), rule=SERVER_RULE,
              trusted=list(SERVER_TRUSTED), timeout={'quick': 900, 'thorough': 14000}, env={'VERIF_MONITORS': str(mon)},
              assumptions=['each exported *IPDB method is one atomic step (gofacts: gf_ipdb_methods_locked)', 'virtual time stands for wall-clock time'])
     d.update(kw)
@@ -152,3 +152,11 @@ PROPS['C07'] = dict(
                               'server are compared byte for byte in the server histories (SRV)'],
     assumptions=['the address stays unavailable to others for the advertised time: C05/C11 (LeaseProofs), with reserved_ns as the duration passed to UpdateClient'],
 )
+
+PROPS['C10']['tests'] = PROPS['C10']['tests'] + ['TestC10Malformed']
+PROPS['C10']['panic_is_violation'] = {1001}
+PROPS['C10']['spec_equal_tags'] = {1001}
+PROPS['C10']['rule'] = SERVER_RULE + (' PLUS the receive path (IPv4 -> UDP -> DHCP -> options -> OUI lookup) run in-process on a malformed stream: frame and DHCP-payload '
+    'truncation at every offset (IP/UDP lengths consistent), every hlen 0..255, option areas over {pad,end,53,1,61,4,200} exhaustively to length 4 (thorough 6), '
+    'random bytes, random payloads, bit flips, length fields off by one, frames up to 4 KB; a panic is a violation with the frame as replay.')
+PROPS['C06']['tests'] = PROPS['C06']['tests'] + ['TestC09NoAlias']
